@@ -464,7 +464,7 @@ def run(ctx, config='rel-all'):
     # of the arena Vec write only the slots they reserved (C13 formula clauses for push / insert / extend_with / append / ..)
     from .. import runner as _runner
     from . import c12 as _c12
-    _c12.run(_runner.Sub(ctx, 'R9', 'C12', only={'R6'}), config)
+    _c12.run(_runner.Sub(ctx, 'R9', 'C12', only={'R6', 'R8'}), config)
     if config != 'rel-default':
         from . import c13 as _c13
         _c13.run(_runner.Sub(ctx, 'R10', 'C13', only={'O2'}, match=_c13.growing_clause), config)
